@@ -10,7 +10,7 @@ from .common import q, qvec, qmat, fbits, fvec, fmat, unfbits
 LEVEL = "proof"
 TRUSTED = [
     "model: lean/RpyModel/Reservoir.lean (hand-written mirror of nodes/reservoirs/base.py)",
-    "theorems: lean/RpyProofs/Props/C01.lean over an arbitrary field",
+    "theorems: lean/RpyProofs/Props/C01.lean over an arbitrary field; the feedback value of a hand-forced step and of the free steps after it is the one of C05_sender_forced_read / C05_forced_read / C05_after_context_reads_state (lean/RpyProofs/Props/C05.lean), which the `force` stream ties to Node.with_feedback",
     "float64 rounding, np.tanh and BLAS are outside the model (regime F tolerance 1e-9; regime E is exact)",
 ]
 
